@@ -35,6 +35,9 @@ type c07TC struct {
 	Stream  int32  `json:"stream"`
 	Service string `json:"service,omitempty"`
 	Method  string `json:"method,omitempty"`
+	// Prefill: index into c07Prefills (0 = none): runner-owned request fields
+	// that the suite author filled in although the runner populates them.
+	Prefill int `json:"prefill,omitempty"`
 }
 
 type c07Suite struct {
@@ -257,6 +260,85 @@ func c07Model(in *c07Input, cases []c07CC) c07ModelResult {
 }
 
 // ---------------------------------------------------------------------------
+// pre-filled runner-owned request fields
+//
+// client_compat.proto ("fields 2 - 10 ... are automatically populated by the
+// test runner") and docs/authoring_test_cases.md ("should not be specified in
+// test cases because they are automatically populated by the test runner":
+// http_version, protocol, codec, compression, server_tls_cert,
+// client_tls_creds) make these fields the runner's. A suite that fills them in
+// anyway is unusual but loads; the statement says the permutation's request
+// carries *the config case's* markers, so whatever the author put there must
+// not survive. The templates use values on both ends of every enum so that for
+// every config case at least one template differs from it in every field.
+
+type c07Prefill struct {
+	Label      string
+	Creds      bool // client_tls_creds {cert, key}
+	EmptyCreds bool // client_tls_creds present but empty (still "present")
+	ServerCert bool // server_tls_cert
+	V, P, C, Z int32
+	Limit      uint32
+}
+
+//nolint:gochecknoglobals
+var c07Prefills = []c07Prefill{
+	0: {Label: "none"},
+	1: {Label: "client-creds", Creds: true},
+	2: {Label: "server-cert", ServerCert: true},
+	3: {Label: "server-cert+client-creds", ServerCert: true, Creds: true},
+	4: {Label: "low-markers", V: 1, P: 1, C: 1, Z: 1, Limit: 1},
+	5: {Label: "high-markers", V: 3, P: 3, C: 3, Z: 6, Limit: 4000000000},
+	6: {Label: "everything-low", ServerCert: true, Creds: true, V: 1, P: 1, C: 1, Z: 1, Limit: 1},
+	7: {Label: "everything-high", ServerCert: true, Creds: true, V: 3, P: 3, C: 3, Z: 6, Limit: 4000000000},
+	8: {Label: "empty-client-creds", EmptyCreds: true},
+	9: {Label: "mid-markers+client-creds", Creds: true, V: 2, P: 2, C: 2, Z: 2, Limit: 204800},
+}
+
+func (pf c07Prefill) apply(req *conformancev1.ClientCompatRequest) {
+	if pf.Creds {
+		req.ClientTlsCreds = &conformancev1.TLSCreds{Cert: []byte("author-cert"), Key: []byte("author-key")}
+	}
+	if pf.EmptyCreds {
+		req.ClientTlsCreds = &conformancev1.TLSCreds{}
+	}
+	if pf.ServerCert {
+		req.ServerTlsCert = []byte("author-server-cert")
+	}
+	req.HttpVersion = conformancev1.HTTPVersion(pf.V)
+	req.Protocol = conformancev1.Protocol(pf.P)
+	req.Codec = conformancev1.Codec(pf.C)
+	req.Compression = conformancev1.Compression(pf.Z)
+	req.MessageReceiveLimit = pf.Limit
+}
+
+func (in *c07Input) hasPrefill() bool {
+	for i := range in.Suites {
+		for j := range in.Suites[i].Cases {
+			if in.Suites[i].Cases[j].Prefill != 0 {
+				return true
+			}
+		}
+	}
+	return false
+}
+
+// stripped returns the same input with every pre-filled field left out.
+func (in *c07Input) stripped() *c07Input {
+	out := *in
+	out.Suites = make([]c07Suite, len(in.Suites))
+	for i := range in.Suites {
+		out.Suites[i] = in.Suites[i]
+		out.Suites[i].Cases = make([]c07TC, len(in.Suites[i].Cases))
+		for j, tc := range in.Suites[i].Cases {
+			tc.Prefill = 0
+			out.Suites[i].Cases[j] = tc
+		}
+	}
+	return &out
+}
+
+// ---------------------------------------------------------------------------
 // driving the real code
 
 func c07Enums[T ~int32](vals []int32) []T {
@@ -296,6 +378,9 @@ func (s *c07Suite) toProto() *conformancev1.TestSuite {
 		if tc.Method != "" {
 			m := tc.Method
 			req.Method = &m
+		}
+		if tc.Prefill > 0 && tc.Prefill < len(c07Prefills) {
+			c07Prefills[tc.Prefill].apply(req)
 		}
 		suite.TestCases = append(suite.TestCases, &conformancev1.TestCase{Request: req})
 	}
@@ -369,11 +454,18 @@ type c07Seen struct {
 	HasMethod     bool
 	Limit         uint32
 	ReqName       string
+	CertBytes     string // content of server_tls_cert
+	CredsBytes    string // content of client_tls_creds (cert NUL key)
 }
 
 func c07See(tc *conformancev1.TestCase) c07Seen {
 	req := tc.GetRequest()
+	creds := ""
+	if c := req.GetClientTlsCreds(); c != nil {
+		creds = string(c.GetCert()) + "\x00" + string(c.GetKey())
+	}
 	return c07Seen{
+		CertBytes: string(req.GetServerTlsCert()), CredsBytes: creds,
 		V: int32(req.GetHttpVersion()), P: int32(req.GetProtocol()), C: int32(req.GetCodec()),
 		Z: int32(req.GetCompression()), S: int32(req.GetStreamType()),
 		TLS: len(req.GetServerTlsCert()) > 0, Certs: req.GetClientTlsCreds() != nil,
@@ -404,6 +496,10 @@ func (s c07Seen) key() string {
 	b = append(b, s.Method...)
 	b = append(b, ',')
 	b = append(b, s.ReqName...)
+	b = append(b, ',')
+	b = append(b, s.CertBytes...)
+	b = append(b, ',')
+	b = append(b, s.CredsBytes...)
 	return string(b)
 }
 
@@ -643,6 +739,24 @@ func c07Evaluate(in *c07Input, set *c07CfgSet, reps int, verbose bool) c07Result
 
 	// ---- gRPC peers: applicability predicate + marker in the name
 	c07CheckGRPC(lib, &model, bad)
+
+	// ---- runner-owned fields the author pre-filled leave no trace: the
+	// expansion (names, every request field incl. the content of the TLS
+	// markers and the receive limit, server groups) is the one of the same
+	// suite without them, i.e. determined by the config case alone.
+	if in.hasPrefill() {
+		plain, errPlain, panickedPlain := c07Expand(in.stripped(), set.Real, 0)
+		switch {
+		case panickedPlain != nil:
+			bad("panic", "expansion of the suite without pre-filled fields panicked: %v", panickedPlain)
+		case errPlain != nil || plain == nil:
+			bad("prefilled-field-survives", "the suite loads with pre-filled runner-owned fields but fails without them: %v", errPlain)
+		default:
+			if with, without := c07Snapshot(lib), c07Snapshot(plain); with != without {
+				bad("prefilled-field-survives", "expansion depends on runner-owned request fields pre-filled in the suite (with vs without them): %s", c07FirstDiff(with, without))
+			}
+		}
+	}
 
 	// ---- repeated expansion gives the same set (map order, order of the config cases)
 	if reps > 1 {
@@ -956,6 +1070,35 @@ func c07CaseSets(thorough bool) [][]c07TC {
 	return out
 }
 
+// c07PrefilledCaseSets: test-case sets whose requests pre-fill runner-owned
+// fields (c07Prefills). Quick: two mixed sets in which every stream type of
+// the quick universe (1, 3, 5) meets a low and a high template (so every config
+// case differs from at least one of them in every marker) and each TLS-marker
+// template occurs; a plain test rides along. Thorough: in addition one set per
+// template carrying it on all five stream types.
+func c07PrefilledCaseSets(thorough bool) [][]c07TC {
+	streamNames := map[int32]string{1: "unary", 2: "client-stream", 3: "server-stream", 4: "bidi-stream/half-duplex", 5: "bidi-stream/full-duplex"}
+	pre := func(stream int32, prefill int) c07TC {
+		return c07TC{Name: streamNames[stream] + "/prefilled-" + c07Prefills[prefill].Label, Stream: stream, Prefill: prefill}
+	}
+	out := [][]c07TC{
+		{pre(1, 1), pre(1, 4), pre(1, 5), pre(3, 6), pre(5, 7), {Name: "unary/plain", Stream: 1}, pre(3, 5), pre(5, 4)},
+		{pre(1, 2), pre(1, 3), pre(1, 8), pre(3, 1), pre(5, 9), pre(3, 4), pre(5, 5), pre(1, 9),
+			{Name: "server-stream/prefilled-explicit", Stream: 3, Service: "custom.pkg.v1.OtherService", Method: "Other3", Prefill: 7}},
+	}
+	if !thorough {
+		return out
+	}
+	for prefill := 1; prefill < len(c07Prefills); prefill++ {
+		var set []c07TC
+		for stream := int32(1); stream <= 5; stream++ {
+			set = append(set, pre(stream, prefill))
+		}
+		out = append(out, set)
+	}
+	return out
+}
+
 // c07Universe: the reduced universe of config-case values. Cases using client
 // certificates without TLS are left out: client_compat.proto rules them out
 // ("will only be present when server_tls_cert is non-empty") and the documents
@@ -1064,6 +1207,15 @@ type c07Plan struct {
 	twinBase     []c07Suite
 	twinSets     []*c07CfgSet
 	twinCaseSets [][]c07TC
+	prefill      []c07PrefillBlock // phase D
+}
+
+// c07PrefillBlock: test-case sets with pre-filled runner-owned fields, the
+// directive combinations they are put into and the config-case sets they meet.
+type c07PrefillBlock struct {
+	cases      [][]c07TC
+	directives []c07Suite
+	sets       []*c07CfgSet
 }
 
 func c07MakePlan(t *testing.T, thorough bool) *c07Plan {
@@ -1103,6 +1255,13 @@ func c07MakePlan(t *testing.T, thorough bool) *c07Plan {
 	}
 	plan.twinSets = []*c07CfgSet{plan.named[0], named[3]}
 	plan.twinCaseSets = [][]c07TC{small[0], small[1]}
+	// the two mixed sets: every directive combination, whole reduced universe and default config;
+	// thorough, one set per template on all stream types: the quick directive list, whole universe
+	prefilled := c07PrefilledCaseSets(thorough)
+	plan.prefill = []c07PrefillBlock{{cases: prefilled[:2], directives: plan.directives, sets: []*c07CfgSet{plan.named[0], named[3]}}}
+	if len(prefilled) > 2 {
+		plan.prefill = append(plan.prefill, c07PrefillBlock{cases: prefilled[2:], directives: c07Directives(false), sets: []*c07CfgSet{plan.named[0]}})
+	}
 	return plan
 }
 
@@ -1130,7 +1289,7 @@ func c07Report(r *rep.Report, in *c07Input, res c07Result) {
 func TestVerifC07(t *testing.T) {
 	r := rep.New("c07-enum")
 	defer r.Write()
-	r.Rule = "odometer over suite directives (mode x relevant protocols/versions/codecs/compressions subsets x the 16 relies-on combinations) x test-case sets (1-3 tests, 5 stream types, default/explicit service+method) x config-case sets (whole reduced universe, sets parsed from shipped/typical configs, every singleton of a reduced universe) x 3 run modes, plus two-suite loads whose twin differs in name and/or mode; every element is distinct by construction; it is non-trivial when the reference iff admits at least one permutation (the others check that nothing is produced)"
+	r.Rule = "odometer over suite directives (mode x relevant protocols/versions/codecs/compressions subsets x the 16 relies-on combinations) x test-case sets (1-3 tests, 5 stream types, default/explicit service+method) x config-case sets (whole reduced universe, sets parsed from shipped/typical configs, every singleton of a reduced universe) x 3 run modes, plus two-suite loads whose twin differs in name and/or mode, plus every directive combination with test-case sets that pre-fill the runner-owned request fields (9 templates: client_tls_creds, server_tls_cert, http_version/protocol/codec/compression/message_receive_limit at low, middle and high values) against the universe and the default config; every element is distinct by construction; it is non-trivial when the reference iff admits at least one permutation (the others check that nothing is produced)"
 	thorough := rep.Thorough()
 	plan := c07MakePlan(t, thorough)
 
@@ -1184,6 +1343,12 @@ func TestVerifC07(t *testing.T) {
 	r.Extra["suites_phaseA"] = len(plan.directives) * len(plan.caseSetsA)
 	r.Extra["suites_phaseB"] = len(plan.directives) * len(plan.caseSetsB)
 	r.Extra["suites_phaseC"] = len(plan.twinBase) * len(plan.twinCaseSets)
+	suitesD := 0
+	for _, block := range plan.prefill {
+		suitesD += len(block.directives) * len(block.cases)
+	}
+	r.Extra["suites_phaseD"] = suitesD
+	r.Extra["prefill_templates"] = len(c07Prefills) - 1
 	sizes := map[string]int{}
 	for _, s := range plan.named {
 		sizes[s.Label] = len(s.Mirror)
@@ -1268,6 +1433,39 @@ phaseC:
 		}
 	}
 	r.Count("phaseC ms (this shard summed)", time.Since(startC).Milliseconds())
+
+	// Phase D: every suite whose test cases pre-fill runner-owned request fields,
+	// against the whole universe and the default config.
+	startD := time.Now()
+phaseD:
+	for _, block := range plan.prefill {
+		for ci, cases := range block.cases {
+			for di := range block.directives {
+				k++
+				if !r.Mine(k) {
+					continue
+				}
+				if expired() {
+					break phaseD
+				}
+				r.Count("phaseD suites done", 1)
+				suite := block.directives[di]
+				suite.Cases = cases
+				for _, set := range block.sets {
+					for _, mode := range runModes {
+						in := c07Input{Suites: []c07Suite{suite}, CfgSet: set.Label, RunMode: mode}
+						res := c07Evaluate(&in, set, 2, false)
+						c07Report(r, &in, res)
+						r.Count("phaseD evaluations", 1)
+					}
+				}
+				if di == (len(block.directives)/5)*(ci%4+1) {
+					r.Sample(c07Input{Suites: []c07Suite{suite}, CfgSet: block.sets[0].Label, RunMode: runModes[ci%3]})
+				}
+			}
+		}
+	}
+	r.Count("phaseD ms (this shard summed)", time.Since(startD).Milliseconds())
 
 	// Phase A: every suite against the whole universe and the named sets.
 	startA := time.Now()
